@@ -353,6 +353,20 @@ theorem runFor_succ (evc : St → R (Bool × St)) (blk post : St → R (Flow × 
 @[gomini] theorem update_nil (y : String) (v : Val) : update y v [] = [(y, v)] := rfl
 @[gomini] theorem update_cons (y a : String) (v w : Val) (rest : List (String × Val)) :
     update y v ((a, w) :: rest) = if y = a then (a, v) :: rest else (a, w) :: update y v rest := rfl
+@[gomini] theorem lookup_update_same (k : String) (v : Val) : ∀ fs : List (String × Val), lookup k (update k v fs) = some v
+  | [] => by simp [update, lookup]
+  | (a, w) :: rest => by
+    by_cases h : k = a
+    · subst h; simp [update, lookup]
+    · simp [update, lookup, h, lookup_update_same k v rest]
+theorem lookup_update_ne (k k' : String) (v : Val) (h : k' ≠ k) : ∀ fs : List (String × Val), lookup k' (update k v fs) = lookup k' fs
+  | [] => by simp [update, lookup, h]
+  | (a, w) :: rest => by
+    by_cases h1 : k = a
+    · subst h1; simp [update, lookup, h]
+    · by_cases h2 : k' = a
+      · subst h2; simp [update, lookup, h1]
+      · simp [update, lookup, h1, h2, lookup_update_ne k k' v h rest]
 @[gomini] theorem lookup'_nil (f : String) : evalE.lookup' f [] = none := rfl
 @[gomini] theorem lookup'_cons (f g : String) (fn : Func) (rest : Prog) :
     evalE.lookup' f ((g, fn) :: rest) = if f = g then some fn else evalE.lookup' f rest := rfl
@@ -374,6 +388,36 @@ theorem runFor_succ (evc : St → R (Bool × St)) (blk post : St → R (Flow × 
       | some (.list xs), .int k =>
         if 0 ≤ k ∧ k.toNat < xs.length then pure (r.2.set a (.list (xs.set k.toNat v))) else .panic
       | _, _ => .stuck "index assignment") := rfl
+@[gomini] theorem assignTo_idx_sel_var (ev : Expr → St → R (Val × St)) (a f : String) (i : Expr) (v : Val) (st : St) :
+    assignTo ev (.idx (.sel (.var a) f) i) v st = (ev i st >>= fun r =>
+      match r.2.env a with
+      | some rr => getField f rr >>= fun inner =>
+        match inner, r.1 with
+        | .struct fs, .str k => setField f (.struct (update k v fs)) rr >>= fun r' => pure (r.2.set a r')
+        | .list xs, .int k =>
+          if 0 ≤ k ∧ k.toNat < xs.length then setField f (.list (xs.set k.toNat v)) rr >>= fun r' => pure (r.2.set a r')
+          else .panic
+        | .nil, .str _ => .panic
+        | _, _ => .stuck "index assignment"
+      | none => .stuck ("unbound " ++ a)) := by
+  rw [assignTo]
+  simp only [bind, R.bind, pure]
+  cases ev i st with
+  | panic => rfl
+  | stuck w => rfl
+  | ok r =>
+    obtain ⟨iv, s1⟩ := r
+    simp only
+    cases s1.env a with
+    | none => rfl
+    | some rr =>
+      simp only
+      cases getField f rr with
+      | panic => rfl
+      | stuck w => rfl
+      | ok inner =>
+        cases inner <;> cases iv <;> try rfl
+        all_goals (simp only; split <;> rfl)
 @[gomini] theorem getField_struct (f : String) (fs : List (String × Val)) :
     getField f (.struct fs) = (match lookup f fs with | some v => .ok v | none => .stuck ("no field " ++ f)) := rfl
 @[gomini] theorem getField_nil (f : String) : getField f .nil = .panic := rfl
